@@ -11,6 +11,10 @@ namespace WowSrp
 def expected_structuralSrp : List String := ["Default for $name @src/key.rs",
   "Default for Generator @src/primes.rs",
   "Default for LargeSafePrime @src/primes.rs",
+  "cfg all(feature=\"srp-default-math\",not(feature=\"srp-fast-math\")) @src/bigint.rs",
+  "cfg all(feature=\"srp-default-math\",not(feature=\"srp-fast-math\")) @src/bigint.rs",
+  "cfg all(feature=\"srp-default-math\",not(feature=\"srp-fast-math\")) @src/bigint.rs",
+  "cfg all(feature=\"srp-default-math\",not(feature=\"srp-fast-math\")) @src/bigint.rs",
   "$name @src/key.rs: Clone Copy Ord PartialOrd PartialEq Eq Hash",
   "Generator @src/primes.rs: ",
   "Integer @src/bigint.rs: ",
